@@ -21,7 +21,24 @@ case "$cmd" in
   setup) build ;;
   check)
     build
-    exec "$BIN" check "$@" -repo "$REPO" -verif "$VERIF" ;;
+    id="${1:-}"; tier="${2:-quick}"
+    if [ "${VERIF_TIER:-}" = "thorough" ] || [ "${VERIF_TIER:-}" = "quick" ]; then tier="$VERIF_TIER"; fi
+    if [ "$tier" = "thorough" ] && [ -z "${VERIF_NO_CONTROLS:-}" ]; then
+      # checker self-test for this property: stored breaking / neutral edits on scratch copies (outside /repo and /verif)
+      mkdir -p "$VERIF/evidence"
+      python3 "$VERIF/tools/selftest.py" --only "$id-" --jobs 8 --json "$VERIF/evidence/selftest_$id.json" >/dev/null 2>&1 || true
+      python3 "$VERIF/tools/selftest.py" --kind neutral --props "$id" --jobs 8 --json "$VERIF/evidence/selftest_${id}_neutral.json" >/dev/null 2>&1 || true
+      python3 - "$VERIF/evidence/selftest_$id.json" "$VERIF/evidence/selftest_${id}_neutral.json" <<'PY' || true
+import json,sys
+a=[]
+for p in sys.argv[1:]:
+    try: a+=json.load(open(p))
+    except Exception: pass
+json.dump(a,open(sys.argv[1],'w'),indent=1)
+PY
+      rm -f "$VERIF/evidence/selftest_${id}_neutral.json"
+    fi
+    VERIF_DIR="$VERIF" exec "$BIN" check "$@" -repo "$REPO" -verif "$VERIF" ;;
   explain)
     build
     exec "$BIN" explain "$@" -repo "$REPO" -verif "$VERIF" ;;
